@@ -91,7 +91,7 @@ def norm_changes(flavour, it):
     rem, add = {}, {}
     for c in it:
         po, pn = c.path
-        old = po is not None and c.versioned[0] and c.kind[0] not in ("directory", None)
+        old = po is not None and c.versioned[0] and c.kind[0] not in ("directory", None) and not getattr(c, "copied", False)
         new = pn is not None and c.versioned[1] and c.kind[1] != "directory"
         if old and new and po == pn:
             out.add(chg(po, pn, c.changed_content, c.kind[0], c.kind[1], c.executable[0], c.executable[1]))
@@ -194,10 +194,43 @@ def perform(wt, root, name, args):
         raise AssertionError(name)
 
 
-def signature(part, fmt, name, want_last, exc):
-    """part that differs : tree format : action : the model's outcome (ok | rejected:<rule of WorkingTree.tla that forbids
-    the call = abstract class of the pre-state>) : what the tree did (ok | exception class)"""
-    return "%s:%s:%s:model-%s:tree-%s" % (part, fmt, name, want_last, "ok" if exc is None else type(exc).__name__)
+def pre_class(pre, flavour):
+    """Abstract class of the uncommitted changes in the spec pre-state (for calls without path arguments)."""
+    cl = set()
+    for o, n, cc, ko, kn, eo, en in pre["changes"]:
+        if not o:
+            cl.add("added")
+        elif not n:
+            cl.add("removed")
+        else:
+            if o != n:
+                cl.add("renamed")
+            if ko != kn:
+                cl.add("kind")
+            elif cc:
+                cl.add("modified")
+            if eo != en:
+                cl.add("mode")
+    if flavour == "git":
+        # what git's rename / copy detection keys on: an added file with the content of another basis file
+        for p, i in pre["ver"].items():
+            if i != "no" and p not in pre["basis"] and pre["disk"].get(p, ("none",))[0] == "file" and any(
+                    q != p and b[0] == "file" and b[1] == pre["disk"][p][1] for q, b in pre["basis"].items()):
+                cl.add("similar")
+    if flavour == "bzr" and any(i not in ("no", "new") and i != p and p.rsplit("/", 1)[0] != i.rsplit("/", 1)[0]
+                                for p, i in pre["ver"].items() if "/" in p or "/" in i):
+        cl.add("reparented")
+    unv = [p for p in pre["basis"] if pre["ver"].get(p) == "no" and p in pre["disk"]]
+    if unv:
+        cl.add("kept")                  # unversioned but still on disk
+    return "+".join(sorted(cl)) or "clean"
+
+
+def signature(part, fmt, flavour, name, pre, want_last, exc):
+    """part that differs : tree format : action[class of the pre-state] : the model's outcome (ok | rejected:<rule of
+    WorkingTree.tla that forbids the call>) : what the tree did (ok | exception class)"""
+    cls = "[%s]" % pre_class(pre, flavour) if name in ("Revert", "Commit") else ""
+    return "%s:%s:%s%s:model-%s:tree-%s" % (part, fmt, name, cls, want_last, "ok" if exc is None else type(exc).__name__)
 
 
 def diff_text(got, want):
@@ -207,21 +240,37 @@ def diff_text(got, want):
     return "tree-only %s, model-only %s" % (sorted(got - want), sorted(want - got))
 
 
+GRAPHS = {}     # flavour key -> (nodes {id: state text}, out {id: {label: [ids]}}); set before forking
+_want_cache = {}
+
+
+def want(gkey, nid):
+    k = (gkey, nid)
+    if k not in _want_cache:
+        _want_cache[k] = want_of(GRAPHS[gkey][0][nid])
+    return _want_cache[k]
+
+
 def replay_paths(sub, chunk):
+    """chunk items: (format, graph key, namespace, init node, [labels])."""
     from breezy.workingtree import WorkingTree
-    from breezy import errors
-    from breezy.transport import NoSuchFile
-    for fmt, init, paths, states, path in chunk:
+    for fmt, gkey, paths, start, labels in chunk:
         flavour = FORMATS[fmt]
+        nodes, out = GRAPHS[gkey]
+        cur = start
+        pre = want(gkey, cur)
+        init = "pop" if "a" in pre["basis"] else "empty"
         root = os.path.join(sub.workdir, "t")
         shutil.copytree(TEMPLATES[(fmt, init)], root, symlinks=True)
         try:
             wt = WorkingTree.open(root)
             calls = []
             ok = True
-            for label, nid in path[1:]:
+            for label in labels:
+                succs = out[cur].get(label)
+                if not succs:
+                    break                # not enabled here (an earlier non-deterministic step went another way)
                 name, args = parse_action(label)
-                want = want_of(states[nid])
                 outcome, exc = "ok", None
                 try:
                     perform(wt, root, name, args)
@@ -237,33 +286,36 @@ def replay_paths(sub, chunk):
                 fresh = project(fresh_wt, flavour)
                 if name == "Reopen":
                     wt = fresh_wt
-                for part, got, exp in (("view", live[0], want["view"]), ("changes", live[1], want["changes"])):
-                    if got != exp:
-                        sub.violation(signature(part, fmt, name, want["last"], exc),
-                                      "%s tree after %s(%s) [%s]: %s differs from the model: %s" % (
-                                          fmt, name, ", ".join(args), calls[-1][-1], part, diff_text(got, exp)), rep)
-                        ok = False
-                        break
-                if not ok:
+                cands = [n for n in succs if (want(gkey, n)["view"], want(gkey, n)["changes"]) == live]
+                if not cands:
+                    w = want(gkey, succs[0])
+                    part, got, exp = ("view", live[0], w["view"]) if live[0] != w["view"] else ("changes", live[1], w["changes"])
+                    sub.violation(signature(part, fmt, flavour, name, pre, w["last"], exc),
+                                  "%s tree after %s(%s) [%s]: %s differs from the model: %s" % (
+                                      fmt, name, ", ".join(args), calls[-1][-1], part, diff_text(got, exp)), rep)
+                    ok = False
                     break
                 if fresh != live:
                     part = "view" if fresh[0] != live[0] else "changes"
-                    sub.violation(signature("reopen-" + part, fmt, name, want["last"], exc),
+                    sub.violation(signature("reopen-" + part, fmt, flavour, name, pre, want(gkey, cands[0])["last"], exc),
                                   "%s tree after %s(%s): a freshly opened tree reports a different %s: %s" % (
                                       fmt, name, ", ".join(args), part,
                                       diff_text(fresh[0], live[0]) if part == "view" else diff_text(fresh[1], live[1])), rep)
                     ok = False
                     break
+                dk = disk_of(root, paths)
+                nxt = [n for n in cands if want(gkey, n)["disk"] == dk]
+                w = want(gkey, (nxt or cands)[0])
                 if isinstance(exc, CRASHES):
                     sub.drift("%s %s(%s) raised %s (state as specified)" % (fmt, name, ", ".join(args), type(exc).__name__), rep)
-                if outcome != want["last"].split(":")[0]:
+                if outcome != w["last"].split(":")[0]:
                     sub.drift("%s %s(%s) %s, model says %s (projection as specified)" % (
-                        fmt, name, ", ".join(args), calls[-1][-1], want["last"]), rep)
-                dk = disk_of(root, paths)
-                if dk != want["disk"]:
+                        fmt, name, ", ".join(args), calls[-1][-1], w["last"]), rep)
+                if not nxt:
                     sub.drift("%s %s(%s): file system differs from the model: %s" % (
-                        fmt, name, ", ".join(args), diff_text(dk, want["disk"])), rep)
+                        fmt, name, ", ".join(args), diff_text(dk, w["disk"])), rep)
                     break
+                cur, pre = nxt[0], w
             sub.count(1, traces=1)
             if len(calls) > 1:
                 sub.nontrivial((fmt, init, tuple(tuple(c) for c in calls)))
@@ -290,6 +342,7 @@ def merged_graph(nodes, edges, inits):
 
 
 def graph_paths(ctx, flavour, paths, inits, depth, label):
+    """Model-check, dump the state graph, register it under a key, return (key, [(init node, [labels])])."""
     c = cfg(flavour, paths, inits, depth)
     nodes, edges, ini, res = tlc.graph(ctx, "WorkingTree", cfg_text=c, workers=8, label=label)
     if "Error:" in res["output"]:
@@ -297,14 +350,16 @@ def graph_paths(ctx, flavour, paths, inits, depth, label):
     nodes, edges, ini = merged_graph(nodes, edges, ini)
     if not edges:
         ctx.machinery("empty state graph")
-    cover = list(tlc.transition_cover(nodes, edges, ini, rng=ctx.rng, max_len=depth + 1))
+    out = {nid: {} for nid in nodes}
+    for a, act, b in edges:
+        out[a].setdefault(act, []).append(b)
+    gkey = "%s/%s/%d" % (flavour, len(paths), depth)
+    GRAPHS[gkey] = (nodes, out)
+    cover = [(p[0][1], [act for act, _ in p[1:]]) for p in
+             tlc.transition_cover(nodes, edges, ini, rng=ctx.rng, max_len=depth + 1)]
     ctx.cov.setdefault("graphs", []).append({"flavour": flavour, "paths": paths, "depth": depth, "states": len(nodes),
                                              "edges": len(edges), "cover_paths": len(cover)})
-    return nodes, cover, ini
-
-
-def init_kind(state):
-    return "pop" if to_py(parse_state(state))["basis"]["a"]["k"] == "file" else "empty"
+    return gkey, cover
 
 
 def run(ctx):
@@ -320,12 +375,12 @@ def run(ctx):
     jobs = []
     plan = [("bzr", ["2a"] if ctx.quick else ["2a", "knit"], 500), ("git", ["git"], 300)]
     for fl, fmts, nquick in plan:
-        nodes, cover, ini = graph_paths(ctx, fl, SMALL, ["empty", "pop"], depth, "MC + graph %s" % fl)
+        gkey, cover = graph_paths(ctx, fl, SMALL, ["empty", "pop"], depth, "MC + graph %s" % fl)
         if ctx.quick:
             cover = ctx.rng.sample(cover, min(nquick, len(cover)))
-        for p in cover:
+        for start, labels in cover:
             for fmt in fmts:
-                jobs.append((fmt, init_kind(nodes[p[0][1]]), SMALL, {nid: nodes[nid] for _, nid in p}, p))
+                jobs.append((fmt, gkey, SMALL, start, labels))
     core.fork_map(ctx, replay_paths, jobs)
     ctx.cov["exhaustive"] = not ctx.quick
     ctx.rule("paths = transition cover of TLC's state graph of WorkingTree.tla (every edge = one call in one abstract "
